@@ -69,8 +69,19 @@ TrServe ==
                  <<"recovery", Ev.ev, Ev.inst, Ev.method, Ev.path, Ev.faults, "got", R.kind, R.order, R.escaped, R.escval, R.recovered,
                    "guards", SetSeq({<<ObsKind(o), o.order, Guard(G, o)>> : o \in O})>>)
 
+\* Group.Routers() keeps the order of Add / New, Group.Routes() lists every router of the group with its own table,
+\* Group.Router(name) finds exactly the routers in the group
+TrObserve ==
+  /\ Ev.ev = "gobserve" /\ UNCHANGED G
+  /\ Check("C05", Ev.res = "ok", <<"group observers panicked">>)
+  /\ Check("C13", Ev.order = G.order, <<"Routers() order", Ev.order, G.order>>)
+  /\ Check("C13", Ev.nroutes = Len(G.order) /\ DOMAIN Ev.routes = ToSet(G.order)
+                  /\ \A n \in DOMAIN Ev.routes : /\ DOMAIN Ev.routes[n] \ {"*"} = Live(G.rs[n])
+                                                   /\ \A p \in Live(G.rs[n]) : ToSet(Ev.routes[n][p]) = AllowSet(G.rs[n], p),
+           <<"Group.Routes()", Ev.routes>>)
+  /\ Check("C13", \A n \in {"r1", "r2", "r3", "r4", "zz"} : (n \in DOMAIN Ev.found) = InGroup(G, n), <<"Group.Router(name)", Ev.found, G.order>>)
 Next == /\ l <= Len(Trace) /\ l' = l + 1
-        /\ (TrReset \/ TrOp \/ TrServe)
+        /\ (TrReset \/ TrOp \/ TrServe \/ TrObserve)
         /\ (l' > Len(Trace) => PrintT("TRACE-END " \o ToString(Len(Trace))))
 Spec == Init /\ [][Next]_vars
 =============================================================================
